@@ -243,7 +243,11 @@ class BaseTemplate:
             )
         except RecursionError:
             raise
-        except BaseException:
+        except BaseException as e:
+            if not isinstance(e, Exception):
+                # KeyboardInterrupt, SystemExit etc. must not be turned
+                # into an ``Exception`` subclass
+                raise
             cls, exc, tb = sys.exc_info()
             try:
                 errors = rcontext.get('__error__')
